@@ -30,6 +30,8 @@ the real lines):
   N8  plain aliases:  a = b  (both bound once)  ->  every use of a reads b.
   N9  f(a, *t) with t bound once to a tuple literal of stable elements -> f(a, e1, e2, ...).
   N10 L = [] ; for T in IT: L.append(E)  ->  L = [E for T in IT]  (single-statement body, loop variables unused afterwards).
+  N11 after a helper was unfolded: 'text {}'.format('literal') and 'a' + 'b' of literals are folded
+      (an SQL statement assembled from a literal table name becomes a literal statement again).
   N3  keyword arguments that name the next positional parameter of a function
       of the repository become positional  (done by Repo once all modules are
       parsed).
@@ -425,6 +427,68 @@ def loops_to_comprehensions(fnode):
                     n += 1
                     continue
             i += 1
+    # N10b: a one-statement append loop anywhere:  for T in IT: L.append(E)  ->  L += [E for T in IT]
+    for block in list(_blocks(fnode)):
+        for i, b in enumerate(block):
+            if isinstance(b, ast.For) and not b.orelse and len(b.body) == 1 and isinstance(b.body[0], ast.Expr) \
+                    and isinstance(b.body[0].value, ast.Call) and isinstance(b.body[0].value.func, ast.Attribute) and b.body[0].value.func.attr == "append" \
+                    and isinstance(b.body[0].value.func.value, ast.Name) and len(b.body[0].value.args) == 1 and not b.body[0].value.keywords:
+                L = b.body[0].value.func.value.id
+                E = b.body[0].value.args[0]
+                tnames = {x.id for x in ast.walk(b.target) if isinstance(x, ast.Name)}
+                if L in tnames:
+                    continue
+                uses_L = any(isinstance(x, ast.Name) and x.id == L for x in list(ast.walk(E)) + list(ast.walk(b.iter)))
+                bad = any(isinstance(x, (ast.Yield, ast.YieldFrom, ast.Await, ast.NamedExpr)) for x in list(ast.walk(E)) + list(ast.walk(b.iter)))
+                inside = {id(x) for x in ast.walk(b)}
+                leaked = any(isinstance(x, ast.Name) and x.id in tnames and id(x) not in inside for x in ast.walk(fnode))
+                # L must be a plain local list: bound in this function by a list display / comprehension / list()
+                is_list = False
+                for x in ast.walk(fnode):
+                    if isinstance(x, ast.Assign) and len(x.targets) == 1 and isinstance(x.targets[0], ast.Name) and x.targets[0].id == L \
+                            and (isinstance(x.value, (ast.List, ast.ListComp)) or
+                                 (isinstance(x.value, ast.Call) and isinstance(x.value.func, ast.Name) and x.value.func.id == "list")):
+                        is_list = True
+                if uses_L or bad or leaked or not is_list:
+                    continue
+                comp = ast.ListComp(elt=E, generators=[ast.comprehension(target=b.target, iter=b.iter, ifs=[], is_async=0)])
+                ast.copy_location(comp, b)
+                new = ast.AugAssign(target=ast.Name(id=L, ctx=ast.Store()), op=ast.Add(), value=comp)
+                ast.copy_location(new, b)
+                ast.copy_location(new.target, b)
+                block[i] = new
+                n += 1
+    return n
+
+
+def fold_constant_formats(tree):
+    """N11: 'text {}'.format('lit', 3) with literal arguments only -> the formatted literal; also
+    'a' + 'b' and 'a' 'b' concatenations of string literals."""
+    n = 0
+    for parent in ast.walk(tree):
+        for fld, val in ast.iter_fields(parent):
+            items = val if isinstance(val, list) else [val]
+            for j, x in enumerate(items):
+                new = None
+                if isinstance(x, ast.Call) and isinstance(x.func, ast.Attribute) and x.func.attr == "format" and isinstance(x.func.value, ast.Constant) \
+                        and isinstance(x.func.value.value, str) and (x.args or x.keywords) \
+                        and all(isinstance(a, ast.Constant) and isinstance(a.value, (str, int)) and not isinstance(a.value, bool) for a in x.args) \
+                        and all(k.arg is not None and isinstance(k.value, ast.Constant) and isinstance(k.value.value, (str, int)) and not isinstance(k.value.value, bool)
+                                for k in x.keywords):
+                    try:
+                        txt = x.func.value.value.format(*[a.value for a in x.args], **{k.arg: k.value.value for k in x.keywords})
+                        new = ast.copy_location(ast.Constant(value=txt), x)
+                    except Exception:
+                        new = None
+                elif isinstance(x, ast.BinOp) and isinstance(x.op, ast.Add) and isinstance(x.left, ast.Constant) and isinstance(x.right, ast.Constant) \
+                        and isinstance(x.left.value, str) and isinstance(x.right.value, str):
+                    new = ast.copy_location(ast.Constant(value=x.left.value + x.right.value), x)
+                if new is not None:
+                    if isinstance(val, list):
+                        val[j] = new
+                    else:
+                        setattr(parent, fld, new)
+                    n += 1
     return n
 
 
@@ -492,6 +556,8 @@ def normalize_module(tree, modname=None, foreign=None):
                 n_inl += a_ + b_
                 if not (a_ or b_):
                     break
+    if n_h:
+        fold_constant_formats(tree)       # literal arguments that arrived by unfolding a helper
     n_t = normalize_tests(tree)
     return {"inlined": n_inl, "tests": n_t, "helpers": n_h}
 
